@@ -106,6 +106,7 @@ type wcaller struct {
 	reported bool
 	enq      bool
 	entered  bool
+	stuckQ   bool
 	state    string
 }
 
@@ -360,6 +361,11 @@ func (ru *wrun) settle() {
 		if r.state == "R" && !r.enq {
 			r.enq = true
 			ru.events = append(ru.events, fmt.Sprintf("+q%d", r.id))
+		}
+		// quit is closed and the process is quiescent, yet the caller is still parked in writeContext's first select
+		if ru.qseen && (r.state == "S" || r.state == "E") && !r.stuckQ {
+			r.stuckQ = true
+			ru.trace = append(ru.trace, fmt.Sprintf("W%d", r.id))
 		}
 	}
 	// 3. the flusher goroutine returned
